@@ -522,3 +522,278 @@ Definition check_out (o : out) (exp : status) (exp_root : dict) : nat :=
 
 Definition is_unsup_out (o : out) : bool :=
   match fst o with SUnsup => true | _ => false end.
+
+(** * Tie B: the Python fragment the two loop bodies are written in, and what it means
+
+    tools/py2coq_c10.py turns the CURRENT source of [merge_recurse] / [defaults_recurse] into
+    a [list pstmt] (Gen/GenC10.v), nothing more than the syntax tree of the loop body with the
+    local names resolved (loop variables k, v; [current]; the recursive call).  [run_item]
+    below is the meaning of that fragment over the model's state: Python's evaluation order,
+    where a key is hashed, which object a statement mutates in place, and that
+    [self.get_formatted_value(e)] formats whatever [e] evaluates to against the context as
+    it is then.  Proofs/GenC10Proofs.v proves [run_item <generated body> = merge_item]. *)
+Inductive pexpr :=
+| PKey                          (* k  (the raw key until rebound, the formatted key after) *)
+| PVal                          (* v *)
+| PCurK                         (* current[k] *)
+| PFmt (e : pexpr)              (* self.get_formatted_value(e) *)
+| PAdd (a b : pexpr)            (* a + b *)
+| PBitOr (a b : pexpr).         (* a | b *)
+
+Inductive pcond :=
+| CIsInst (e : pexpr) (classes : list string)     (* isinstance(e, (C1, C2, ...)) *)
+| CAllType (cls : string) (es : list pexpr)       (* types.are_all_this_type(C, e1, e2, ...) *)
+| CKeyIn                                          (* k in current *)
+| CNot (c : pcond)
+| COr (a b : pcond)
+| CAnd (a b : pcond).
+
+Inductive pstmt :=
+| SRebindKey (e : pexpr)                 (* k = e *)
+| SSetItem (e : pexpr)                   (* current[k] = e *)
+| SExtend (e : pexpr)                    (* current[k].extend(e) *)
+| SRecurse                               (* <this function>(current[k], v) *)
+| SIf (c : pcond) (t e : list pstmt).
+
+(** the classes the dispatch tests, over the [val] universe *)
+Definition class_test (cls : string) : option (val -> bool) :=
+  if String.eqb cls "str" then Some (fun v => match v with VStr _ => true | _ => false end)
+  else if String.eqb cls "SpecialTagDirective"
+  then Some (fun v => match v with VPy _ _ | VSic _ | VJsonify _ => true | _ => false end)
+  else if String.eqb cls "bytes" || String.eqb cls "bytearray"
+  then Some (fun v => match v with VBytes _ => true | _ => false end)
+  else if String.eqb cls "Mapping" then Some (fun v => match v with VDict _ => true | _ => false end)
+  else if String.eqb cls "list" then Some (fun v => match v with VList _ => true | _ => false end)
+  else if String.eqb cls "tuple" then Some (fun v => match v with VTuple _ => true | _ => false end)
+  else if String.eqb cls "Set" then Some (fun v => match v with VSet _ => true | _ => false end)
+  else None.
+
+(** the subclasses of SpecialTagDirective the [val] universe has constructors for *)
+Definition special_tag_classes : list string := ["Jsonify"; "PyString"; "SicString"].
+
+(** hashing a key (see [key_check]) *)
+Definition key_res (k : val) : res unit :=
+  match k with
+  | VStr _ | VInt _ | VNone | VBytes _ => Ok tt
+  | VList _ | VDict _ => Err "TypeError" ("unhashable type: '" ++ type_name k ++ "'")
+  | _ => Unsup
+  end.
+
+Definition join_share (a b : share) : share :=
+  match a, b with
+  | ShNone, x | x, ShNone => x
+  | _, _ => ShTaint
+  end.
+
+Section Exec.
+  Variable ff : nat.
+  Variable prot : option path.
+  Variable rec : st -> path -> dict -> out.
+  Variable a : path.            (* where [current] is *)
+  Variable v : val.             (* the incoming value of this iteration *)
+
+  (** what a freshly formatted value may share with the context: [w] is what was formatted *)
+  Definition share_of (s : st) (w x : val) : share :=
+    if is_strtag w then leaf_share (s_root s) w x else tree_share ff (s_root s) w.
+
+  Definition cur_item (s : st) (k : val) : res val :=
+    let* _ := key_res k in
+    match cur_dict s a with
+    | Some cur => match dict_get k cur with Some ev => Ok ev | None => Unsup end   (* KeyError *)
+    | None => Unsup
+    end.
+
+  (** [as_key]: the expression is being evaluated to rebind k (the key is formatted as it is,
+      [fmt]); otherwise it is an incoming value ([fmtv], see there) *)
+  Fixpoint eval (as_key : bool) (s : st) (k : val) (e : pexpr) : res (val * share) :=
+    match e with
+    | PKey => Ok (k, ShNone)
+    | PVal => Ok (v, ShNone)
+    | PCurK => let* ev := cur_item s k in Ok (ev, ShNone)
+    | PFmt e' =>
+        let* (w, _) := eval as_key s k e' in
+        if as_key then let* x := fmt ff s w in Ok (x, ShNone)
+        else let* x := fmtv ff s w in Ok (x, share_of s w x)
+    | PAdd e1 e2 =>
+        let* (x, sx) := eval as_key s k e1 in
+        let* (y, sy) := eval as_key s k e2 in
+        match x, y with
+        | VTuple p, VTuple q => Ok (VTuple (p ++ q)%list, join_share sx sy)
+        | _, _ => Unsup
+        end
+    | PBitOr e1 e2 =>
+        let* (x, _) := eval as_key s k e1 in
+        let* (y, _) := eval as_key s k e2 in
+        match x, y with
+        | VSet p, VSet q =>
+            (* a set of hashable members holds no mutable container: nothing shared *)
+            match set_of_list (p ++ q)%list with Some u => Ok (VSet u, ShNone) | None => Unsup end
+        | _, _ => Unsup
+        end
+    end.
+
+  Fixpoint class_tests (classes : list string) : option (list (val -> bool)) :=
+    match classes with
+    | [] => Some []
+    | c :: r =>
+        match class_test c, class_tests r with
+        | Some t, Some ts => Some (t :: ts)
+        | _, _ => None
+        end
+    end.
+
+  Fixpoint eval_all (s : st) (k : val) (es : list pexpr) : res (list val) :=
+    match es with
+    | [] => Ok []
+    | e :: r => let* (x, _) := eval false s k e in let* xs := eval_all s k r in Ok (x :: xs)
+    end.
+
+  Fixpoint eval_cond (s : st) (k : val) (c : pcond) : res bool :=
+    match c with
+    | CIsInst e classes =>
+        let* (x, _) := eval false s k e in
+        match class_tests classes with
+        | Some ts => Ok (existsb (fun t => t x) ts)
+        | None => Unsup
+        end
+    | CAllType cls es =>
+        let* xs := eval_all s k es in
+        match class_test cls with
+        | Some t => Ok (forallb t xs)
+        | None => Unsup
+        end
+    | CKeyIn =>
+        let* _ := key_res k in
+        match cur_dict s a with Some cur => Ok (dict_has k cur) | None => Unsup end
+    | CNot c' => let* b := eval_cond s k c' in Ok (negb b)
+    | COr c1 c2 => let* b := eval_cond s k c1 in if b then Ok true else eval_cond s k c2
+    | CAnd c1 c2 => let* b := eval_cond s k c1 in if b then eval_cond s k c2 else Ok false
+    end.
+
+  (** status, state, current binding of k *)
+  Definition xout := (status * st * val)%type.
+
+  Definition lift_x {A} (s : st) (k : val) (r : res A) (cont : A -> xout) : xout :=
+    match r with
+    | Ok x => cont x
+    | Err n m => (SErr n m, s, k)
+    | Unsup => (SUnsup, s, k)
+    end.
+
+  Definition with_k (k : val) (o : out) : xout := (fst o, snd o, k).
+
+  Fixpoint exec (p : pstmt) (s : st) (k : val) : xout :=
+    let fix exec_list (l : list pstmt) (s : st) (k : val) : xout :=
+      match l with
+      | [] => (SOk, s, k)
+      | p :: r =>
+          match exec p s k with
+          | (SOk, s1, k1) => exec_list r s1 k1
+          | o => o
+          end
+      end in
+    match p with
+    | SRebindKey e => lift_x s k (eval true s k e) (fun xs => (SOk, s, fst xs))
+    | SSetItem e =>
+        (* the right-hand side first, then the key is hashed and the item stored *)
+        lift_x s k (eval false s k e) (fun xs =>
+        lift_x s k (key_res k) (fun _ => with_k k (assign prot s a k (fst xs) (snd xs))))
+    | SExtend e =>
+        (* current[k] is fetched first: it has to be there and be a list *)
+        lift_x s k (cur_item s k) (fun ev =>
+        match ev with
+        | VList _ =>
+            lift_x s k (eval false s k e) (fun xs =>
+            match fst xs with
+            | VList xl => with_k k (extend prot s (a ++ [k])%list xl (snd xs))
+            | _ => (SUnsup, s, k)
+            end)
+        | _ => (SUnsup, s, k)
+        end)
+    | SRecurse =>
+        lift_x s k (cur_item s k) (fun ev =>
+        match ev, v with
+        | VDict _, VDict l => with_k k (rec s (a ++ [k])%list l)
+        | _, _ => (SUnsup, s, k)
+        end)
+    | SIf c t e =>
+        lift_x s k (eval_cond s k c) (fun b => if b then exec_list t s k else exec_list e s k)
+    end.
+
+  Fixpoint exec_list (l : list pstmt) (s : st) (k : val) : xout :=
+    match l with
+    | [] => (SOk, s, k)
+    | p :: r =>
+        match exec p s k with
+        | (SOk, s1, k1) => exec_list r s1 k1
+        | o => o
+        end
+    end.
+End Exec.
+
+(** one iteration [for k, v in incoming.items(): body] with [current] at path [a] *)
+Definition run_item (ff : nat) (prot : option path) (rec : st -> path -> dict -> out)
+    (body : list pstmt) (s : st) (a : path) (k v : val) : out :=
+  let '(stt, s', _) := exec_list ff prot rec a v body s k in (stt, s').
+
+Fixpoint run_items (ff : nat) (prot : option path) (rec : st -> path -> dict -> out)
+    (body : list pstmt) (s : st) (a : path) (items : dict) : out :=
+  match items with
+  | [] => (SOk, s)
+  | (k, v) :: rest =>
+      match run_item ff prot rec body s a k v with
+      | (SOk, s') => run_items ff prot rec body s' a rest
+      | o => o
+      end
+  end.
+
+(** the function calling itself: fuel = nesting depth, as in [merge_rec] *)
+Fixpoint run_rec (ff : nat) (prot : option path) (body : list pstmt) (fuel : nat)
+    (s : st) (a : path) (items : dict) : out :=
+  match fuel with
+  | O => (SUnsup, s)
+  | S f => run_items ff prot (run_rec ff prot body f) body s a items
+  end.
+
+(** the outer method: [inner(self, incoming)] — start at the root *)
+Definition run_top (ff fuel : nat) (body : list pstmt) (root : dict) (incoming : dict) : out :=
+  run_rec ff None body fuel (init root) [] incoming.
+
+(** ** the two thin steps, as read from their source *)
+Record step_src := {
+  ss_assert_key : string;          (* context.assert_key_has_value(key=...) *)
+  ss_method : string;              (* context.<method>(context[...]) *)
+  ss_arg_key : string;
+  ss_len_key : option string       (* len(context[...]) in the closing log call *)
+}.
+
+Definition step_run_src (src : step_src) (ff fuel : nat) (root : dict) : out :=
+  match sget (ss_assert_key src) root with
+  | None | Some VNone => (SUnsup, init root)        (* the assertion raises: not modelled *)
+  | Some _ =>
+      match sget (ss_arg_key src) root with
+      | Some (VDict items) =>
+          let run :=
+            if String.eqb (ss_method src) "merge" then Some merge_rec
+            else if String.eqb (ss_method src) "set_defaults" then Some defaults_rec
+            else None in
+          match run with
+          | None => (SUnsup, init root)
+          | Some r =>
+              let o := r ff (Some [VStr (ss_arg_key src)]) fuel (init root) [] items in
+              match o with
+              | (SOk, s') =>
+                  match ss_len_key src with
+                  | None => o
+                  | Some lk =>
+                      match sget lk (s_root s') with
+                      | Some x => if sized x then o else (SUnsup, s')
+                      | None => (SUnsup, s')
+                      end
+                  end
+              | _ => o
+              end
+          end
+      | _ => (SUnsup, init root)
+      end
+  end.
